@@ -12,46 +12,59 @@ REGISTERED = ["C01", "C02", "C03", "C04", "C05", "C06", "C07", "C11", "C12", "C1
 NOT_YET = "monitor designed (DESIGN.md section 2) but not yet built/validated in /verif; not claimed until it is"
 
 P = {
-    "C01": dict(cat="exploration", tech="runtime monitor: engine-side finite-difference oracle on add_energy()/applied atomic forces over generated configurations (esim), Richardson error bars, purity guard",
-                text="Sampled (component type x atom-group option x bias x cell) configurations and geometries run through the real calc(); every coordinate of every engine atom swept by central differences of the engine-visible energy and compared with the force handed to the engine. Held on the cases listed in the evidence; says nothing about components without a template (listed as uncovered).",
-                note="trusts the engine simulator (esim/verif_proxy) to follow the NAMD/LAMMPS proxy contract; finite differences with h=1e-4 and h/2, non-smooth points are inconclusive; tolerance 1e-6 of the force scale (accuracy of the iterative diagonalisation)"),
-    "C02": dict(cat="exploration", tech="runtime monitor: metamorphic transformations + independent numpy reference of each definition on colvar values observed through esim",
-                text="Sampled geometries; values observed through colvar::value() compared with an independent implementation and under symmetry transformations.", note="reference models written from the manual"),
-    "C03": dict(cat="exploration", tech="runtime monitor: differential histories (uninterrupted vs stop/save/fresh-process/load) compared event by event at the engine boundary",
-                text="All stop steps K of short histories for each bias family and both state formats.", note="tolerance = printed precision of the state format"),
-    "C04": dict(cat="exploration", tech="runtime monitor: lock-step reference model of the ABF estimator fed with dyadic, uniquely identifiable force samples",
-                text="Fed histories versus estimator model.", note="dyadic inputs make sums exact"),
-    "C05": dict(cat="exploration", tech="runtime monitor: lock-step reference model of the hill sum over fed trajectories",
-                text="Fed trajectories versus hill-sum model.", note="truncation band of the Gaussian cut-off accepted"),
-    "C06": dict(cat="exploration", tech="runtime monitor: closed-form restraint/schedule model, segmentation-blind, compared under several run segmentations",
-                text="Closed forms and schedules under several segmentations.", note=""),
-    "C07": dict(cat="exploration", tech="runtime monitor: closed-loop force echo through the engine simulator",
-                text="Closed loop force echo.", note=""),
-    "C08": dict(cat="exploration", tech="runtime monitor: differential runs (A+B vs A, B; factor n vs 1) at the engine boundary",
+    "C01": dict(cat="exploration", tech="runtime monitor: engine-side finite-difference oracle (Richardson pair) on add_energy()/applied atomic forces over generated configurations in the engine simulator, purity guard, ASan sample",
+                text="Generated (component type x atom-group fit option x bias x cell x coefficient/exponent) configurations and random geometries are run through the real calc(); every coordinate of every engine atom is swept by central differences (h, h/2) of the engine-visible energy and compared with the force handed to the engine; spectator atoms must get exactly zero. Held on the cases listed in the evidence; component types without a template are listed as uncovered.",
+                note="trusts esim (engine contract of the NAMD/LAMMPS proxies); non-smooth points and stateful evaluations are inconclusive, never violations; tolerance 1e-6 of the force scale (accuracy of the iterative diagonalisation); enableFitGradients off and eigenvector default self-fit are documented approximations and excluded"),
+    "C02": dict(cat="exploration", tech="runtime monitor: independent numpy reference of each documented definition + metamorphic transformations (rigid motion, lattice translation, permutation/duplicates, q/-q) on values observed through esim; optimality of the fitting rotation tested against random and perturbed rotations",
+                text="33 component types compared with an independent implementation written from the manual and under every invariance that follows from the documented definition; fitting rotation checked to be the least-squares optimum.",
+                note="conditioning-aware tolerance 1e-10*scale + 1e-11*sensitivity; documented singular geometries skipped; path CVs, neuralNetwork, alch*, mapTotal, Lepton/Torch components uncovered (listed in the evidence)"),
+    "C03": dict(cat="exploration", tech="runtime monitor: differential histories (uninterrupted vs stop / state file / fresh process / load / resume) compared event by event at the engine boundary, both state formats, file / string / buffer channels; save(load(S)) == S",
+                text="For 26 bias families (restraints fixed/moving/staged, walls, linear, ABF/eABF, metadynamics variants, OPES, ABMD, histogram, extended Lagrangian) every stop step K of a short history with off-grid excursions is resumed in a fresh process; all later engine-visible events and the final state must agree. Exhaustive over K in the thorough tier.",
+                note="positions and physical forces are imposed, so no chaotic amplification: reals agree to 1e-10 relative (state files carry 14 digits), integers exactly; step K is recomputed with step_relative()==0 as engines do"),
+    "C04": dict(cat="exploration", tech="runtime monitor: lock-step reference model of the ABF estimator fed with exactly imposed values and dyadic projected forces; stored counts (==), stored mean gradients (printed precision) and applied force compared after every step; ASan sample",
+                text="1-3 variables, both total-force timing conventions, periodic zero-mean, ramp corner values, maxForce, applyBias off, a second bias with/without subtractAppliedForce, off-grid excursions, run boundaries.",
+                note="distanceZ variables (Jacobian zero) at T=0; dyadic inputs make all sums exact"),
+    "C05": dict(cat="exploration", tech="runtime monitor: lock-step reference model of the hill sum (documented schedule, tabulated vs pending vs off-grid evaluation, well-tempered heights) over imposed trajectories; acceptance band spans the documented Gaussian cut-off; ASan sample",
+                text="1-3 scalar variables, grids on/off, gridsUpdateFrequency >= newHillFrequency, well-tempered, periodic, expandBoundaries, keepHills, excursions beyond the grid, run boundaries; energy and per-variable force every step, hill list at the end.",
+                note="Boltzmann constant of the 'real' unit system; non-scalar variables are covered by C01's finite differences"),
+    "C06": dict(cat="exploration", tech="runtime monitor: closed-form restraint and schedule model (functions of the absolute step only) compared under three segmentations of the same history (one run / new run statements / restart from state file in a fresh process); trajectory columns, state fields and dA/dLambda log lines observed",
+                text="harmonic (scalar, periodic, vector, unit vector, quaternion), harmonicWalls, linear, histogramRestraint, ABMD; continuous, staged, lambdaSchedule, targetEquilSteps, lambdaExponent, decoupling schedules; accumulated work and staged TI.",
+                note="energy 1e-12 relative, work 1e-12*sum|terms| (1e-10 across a state file), TI lines at the 6 printed digits; one documentation/code mismatch (histogramRestraint normalisation) is a known finding"),
+    "C07": dict(cat="exploration", tech="runtime monitor: closed loop through the engine simulator (forces Colvars applied are echoed back as total forces), linearity and locality of the total force in the atomic force field, Jacobian term vs numerical divergence of the inverse gradients",
+                text="distance, distanceZ, distanceXY, angle, dihedral, gyration, rmsd, eigenvector, alchLambda, +-1 combinations, oneSiteTotalForce, both timing conventions, subtractAppliedForce, hideJacobian.",
+                note="random (non-dyadic) inputs so that the known exact-cancellation finding of C04 is not triggered"),
+    "C08": dict(cat="exploration", tech="runtime monitor: differential runs at the engine boundary (biases {A,B} vs {A} and {B}; time-step factor n vs 1) on imposed histories",
                 text="Bias subsets and time-step factors.", note=""),
-    "C09": dict(cat="exploration", tech="libFuzzer+ASan/UBSan on read_config_string; enumerated keyword mutations; layout rewrites compared bitwise",
+    "C09": dict(cat="exploration", tech="libFuzzer + ASan/UBSan on read_config_string (hermetic proxy); enumerated keyword/brace/value mutations that must be rejected; documented layout rewrites compared bitwise",
                 text="Fuzzing + enumerated mutation classes + rewrites.", note=""),
-    "C10": dict(cat="exploration", tech="ASan/UBSan processes over a keyword x boundary-value grid; survivor differential",
+    "C10": dict(cat="exploration", tech="ASan/UBSan processes over a (object type x keyword x boundary value) grid, one process per case; differential test of surviving objects after a rejected configuration",
                 text="Keyword x boundary-value grid.", note=""),
-    "C11": dict(cat="fault_enumeration", tech="strace/LD_PRELOAD crash-point enumeration of state writes; exhaustive truncation; libFuzzer on state input; typed round trip",
-                text="Every syscall index and partial-write offset of a state write; every truncation offset.", note=""),
-    "C12": dict(cat="exploration", tech="schedule controller (permutations / std::thread / OpenMP) with bitwise differential + ThreadSanitizer(Archer)",
-                text="Schedules executed on the real code + race detector.", note=""),
-    "C13": dict(cat="exploration", tech="ASan runs of define/delete programs; identity oracle vs fresh module; dependency-graph invariant hook at quiescent points",
-                text="Define/delete programs.", note=""),
-    "C14": dict(cat="exploration", tech="multi-process walkers over simulated replica layer; exactly-once accounting with unique dyadic samples; file-system fault injection",
-                text="Walker interleavings, delays, truncations.", note=""),
-    "C15": dict(cat="exploration", tech="imposed dyadic value sequences vs literal binning model; grid file round trips in-process",
-                text="Imposed value sequences; file round trips.", note=""),
-    "C16": dict(cat="exploration", tech="in-process harness on integrate_potential: independent numpy operators, refinement-order test, incremental-vs-batch divergence via guarded accessor",
-                text="Random fields, orders of arrival, refinement triples.", note=""),
-    "C17": dict(cat="exploration", tech="lock-step BAOA reference model with controlled Gaussian source + model-free invariants on trajectory columns",
+    "C11": dict(cat="fault_enumeration", tech="strace syscall-level kill injection + LD_PRELOAD partial-write shim over every file-system call of a state write; exhaustive truncation and bit flips of valid states under ASan; libFuzzer on state input; typed round trip through memory_stream",
+                text="Every call (and partial write) of state writes after the first complete state is turned into a crash point, then a fresh process must load the state file or its backup and find one of the states the uninjected run produced; every truncation offset of text and binary states of 7 configurations must be rejected inside object blocks and never crash; every value type round-trips bit-exactly.",
+                note="crash = SIGKILL of the process (no power-loss / page-cache model); one format limitation (binary hill list has no count) is a known finding"),
+    "C12": dict(cat="exploration", tech="schedule controller behind the proxy's virtual SMP methods (seeded permutations x thread-id maps, std::thread schedules) and the real OpenMP loops with 1-16 threads, all compared bitwise with the serial run; ThreadSanitizer with clang/libomp/Archer for races",
+                text="Each scenario (two-component variables, restraints, metadynamics, histogram, OPES, native scripted-force task) is executed under >100 distinct schedules plus TSan runs; every event, the final state and the trajectory file must be bit-identical to the serial reference and TSan must stay silent.",
+                note="TSan sees OpenMP synchronisation through Archer; gcc/libgomp TSan is not used (false races on correct code)"),
+    "C13": dict(cat="exploration", tech="ASan runs of define/delete programs (exhaustive up to length 4 over a reduced alphabet + random longer ones); identity oracle vs a control that never defined the deleted objects and vs a fresh module built from getconfig; dependency-graph invariant through the guarded read-only accessor after every command",
+                text="Programs over {add variable, add bias, delete bias, delete variable, reset, step, rejected configuration}; values/energies/forces/active-atom count/trajectory labels vs control; enabled feature => prerequisites enabled, exclusions, symmetry, reference counts recomputed from scratch.",
+                note="reference counts above the number of dependents left by a REJECTED definition are counted, not flagged (nothing is switched off under a dependent)"),
+    "C14": dict(cat="exploration", tech="multi-process walkers over a simulated replica layer (FIFOs, seeded delays) with exactly-once accounting of unique dyadic samples (shared ABF); lock-step driven walker processes with transient peer-file truncation at random bytes and union-of-hills oracle at probe points (multiple-walker metadynamics)",
+                text="2-4 walkers; every exchange of every walker compared with the union of all walkers' samples (counts ==); metadynamics walkers under a seeded interleaving and partially visible peer files must end up with the hill sum over the union within two update periods.",
+                note="bounded-progress form of 'eventually'; replica communication simulated between processes"),
+    "C15": dict(cat="exploration", tech="runtime monitor: imposed dyadic values (on bin edges, boundaries, periods away) vs the literal binning rule, stored counts and multicolumn file compared cell by cell; in-process grid write/read round trips (multicol, restart text/binary, raw)",
+                text="Imposed value sequences; file round trips.", note="gatherVectorColvars histograms are rejected by the library at initialisation (known finding), so per-element weights cannot be exercised"),
+    "C16": dict(cat="exploration", tech="in-process harness on integrate_potential / gradient grids with independent numpy oracles: 1-D cumulative sums and closure, residual of the discrete Poisson problem (own operator, independent Laplacian, dense least squares), refinement-order test against analytic surfaces, incremental-vs-batch divergence through the guarded accessor, real ABF runs",
+                text="Random fields on 1-3-D grids with all periodicity patterns and anisotropic widths, six arrival-order classes, three resolutions per analytic surface.",
+                note="max-norm order at corners where >=2 non-periodic directions meet is h^2 log(1/h): counted separately, RMS order must still be 2"),
+    "C17": dict(cat="exploration", tech="lock-step reference model of the documented BAOA integrator with a controlled Gaussian source + model-free invariants on the observed coordinate/velocity/energies",
                 text="Lock-step integrator model + model-free invariants.", note=""),
-    "C18": dict(cat="exploration", tech="in-process property harness over colvarvalue/colvar metric functions, random + adversarial pairs, finite-difference gradient oracle",
-                text="Random and adversarial value pairs.", note=""),
-    "C19": dict(cat="exploration", tech="offline checker of trajectory/analysis files against the event log and textbook statistics",
-                text="Output files vs event log and textbook statistics.", note=""),
-    "C20": dict(cat="exploration", tech="libFuzzer+ASan on script command sequences; agreement of script queries with engine-side event log",
+    "C18": dict(cat="exploration", tech="in-process property harness over colvarvalue / colvar metric functions (dist2, gradients, wrap, interpolate, constraints) with random and adversarial pairs and a finite-difference tangent-space gradient oracle; ASan sample",
+                text="Every value type and 11 configured variables (periodic, unit vector, quaternion, minimum image...) x 16 pair classes; non-negativity, symmetry, identity, period and sign invariance, gradient, wrap range, interpolation end points and manifold.",
+                note="only the tangent projection of the gradient is constrained; near the cut locus the gradient test is inconclusive"),
+    "C19": dict(cat="exploration", tech="offline checker of the trajectory, running-average and correlation-function files against the engine-side event log and textbook statistics (numpy)",
+                text="Column/label agreement, step stamps, one line per multiple of the output frequency across run boundaries and object addition/deletion; running average/deviation and auto/cross correlation functions vs textbook definitions.",
+                note="printed precision (1e-10 relative for derived quantities)"),
+    "C20": dict(cat="exploration", tech="libFuzzer + ASan/UBSan over script command sequences with a usability epilogue; agreement of script queries with the engine-side event log; equivalence of script-driven and engine-driven paths",
                 text="Fuzzed command sequences + agreement scenarios.", note=""),
 }
 
